@@ -104,6 +104,8 @@ fn reference(c: &Cfg, x: &[u8]) -> Vec<(u64, usize)> {
 }
 
 async fn real(c: &Cfg, x: &[u8], script: &[usize]) -> Result<Vec<(u64, usize)>, String> {
+    PROGRESS.fetch_add(1, std::sync::atomic::Ordering::Relaxed);
+    if let Ok(mut cur) = CURRENT.try_lock() { *cur = format!("{:?} stream {:?} read_script {:?}", c, &x[..x.len().min(48)], script); }
     let src = Scripted { data: x.to_vec(), pos: 0, script: script.to_vec(), step: 0 };
     let mut s = to_config(c).new_chunker(src);
     let mut out = vec![];
@@ -126,6 +128,25 @@ fn witness(kind: &str, c: &Cfg, x: &[u8], script: &[usize], want: &[(u64, usize)
     println!("WITNESS {{\"kind\":\"{}\",\"config\":\"{:?}\",\"stream\":{:?},\"read_script\":{:?},\"expected_chunks\":{:?},\"got\":{}}}",
         kind, c, x, script, want, got);
     panic!("chunker disagrees with the C09 reference");
+}
+
+static PROGRESS: std::sync::atomic::AtomicUsize = std::sync::atomic::AtomicUsize::new(0);
+static CURRENT: std::sync::Mutex<String> = std::sync::Mutex::new(String::new());
+/// a chunker that stops making progress for 30 s on a tiny input is reported as a witness (endless loop)
+fn start_watchdog() {
+    std::thread::spawn(|| {
+        let mut last = PROGRESS.load(std::sync::atomic::Ordering::Relaxed);
+        loop {
+            std::thread::sleep(std::time::Duration::from_secs(30));
+            let now = PROGRESS.load(std::sync::atomic::Ordering::Relaxed);
+            if now == last {
+                let cur = CURRENT.lock().map(|c| c.clone()).unwrap_or_default();
+                println!("WITNESS {{\"kind\":\"C09\",\"what\":\"no progress for 30 s: the chunker does not terminate on this case\",\"case\":{:?}}}", cur);
+                std::process::exit(1);
+            }
+            last = now;
+        }
+    });
 }
 
 struct Rng(u64);
@@ -163,6 +184,7 @@ fn catch<F: std::future::Future<Output = Result<Vec<(u64, usize)>, String>>>(f: 
 
 #[test]
 fn c09_reference_agreement() {
+    start_watchdog();
     std::panic::set_hook(Box::new(|_| {}));
     let seed: u64 = std::env::var("VERIF_SEED").ok().and_then(|s| s.parse().ok()).unwrap_or(1);
     let budget: usize = std::env::var("VERIF_COMPANION_CASES").ok().and_then(|s| s.parse().ok()).unwrap_or(60000);
@@ -213,6 +235,7 @@ fn c09_reference_agreement() {
 /// larger windows (arithmetic of the hashes) on a few random streams
 #[test]
 fn c09_large_window_agreement() {
+    start_watchdog();
     std::panic::set_hook(Box::new(|_| {}));
     let mut rng = Rng(0x1234_5678_9abc_def1);
     let mut cases = 0;
@@ -241,6 +264,7 @@ fn c09_large_window_agreement() {
 /// chunks larger than the streaming chunker's 1 MiB refill step (the refill lines of poll_next are not under contract)
 #[test]
 fn c09_chunks_larger_than_refill() {
+    start_watchdog();
     std::panic::set_hook(Box::new(|_| {}));
     let mut rng = Rng(0x0909_0909_aaaa_5555);
     let len = 4 * 1024 * 1024 + 321;
@@ -267,6 +291,7 @@ fn c09_chunks_larger_than_refill() {
 /// C10: after a common boundary at least one window into the common data, all later boundaries agree
 #[test]
 fn c10_resynchronisation() {
+    start_watchdog();
     std::panic::set_hook(Box::new(|_| {}));
     let seed: u64 = std::env::var("VERIF_SEED").ok().and_then(|s| s.parse().ok()).unwrap_or(1);
     let mut rng = Rng(0xdeadbeefcafef00d ^ seed);
